@@ -394,6 +394,21 @@ def r5(ctx, cfg):
     f = a["fn"]
     for (oc, ro), seqs in sorted(a["table"].items()):
         if oc != "Ok":
+            # a failed sub-message contributes nothing of its own: either only the reply's response (events and data of
+            # the reply, when reply_on says so) or the error itself
+            inst = "data-and-events(%s,%s)" % (oc, ro)
+            bad = []
+            for s in seqs:
+                evs = [e for e in s if isinstance(e, tuple)]
+                if ro in ("Always", "Error"):
+                    ok = len(evs) == 1 and evs[0][0] == "reply+ret"
+                    want = "exactly the reply's response is returned"
+                else:
+                    ok = evs == [("ret", "Err(e)")]
+                    want = "no reply; the sub-message's error is returned, nothing else"
+                if not ok:
+                    bad.append("%s (expected %s)" % (submsg.fmt_seq(s), want))
+            ctx.ob(R, submsg.KEY, inst, bool(seqs) and not bad, "; ".join(bad) or "no path", fn=f, sample="%d paths conform" % len(seqs))
             continue
         inst = "data-and-events(%s,%s)" % (oc, ro)
         bad = []
